@@ -47,6 +47,9 @@ def cells(tier):
                 pools_grid = list(itertools.product(POOLS, repeat=K)) if K <= 3 else list(itertools.product([None, "P"], repeat=K)) + [("P", "Q", None, "Q")]
             for pools in pools_grid:
                 out.append(dict(kind="merge", K=K, ids=list(ids), pools=list(pools)))
+    # two records of different cards holding the same votes dict object (one ballot-style dict): merging one card must not change the other
+    for ids, share in (([0, 1, 0], [0, 1]), ([0, 0, 1], [0, 2]), ([0, 1, 1], [0, 1])):
+        out.append(dict(kind="merge", K=3, ids=ids, pools=[None, None, None], share=share))
     for pat in ([[0, 1, 0], [0, 0, 1], [1, 0, 0]] if tier == "quick" else [[0, 1, 0, 1], [0, 0, 1, 1], [1, 0, 0, 1]]):
         out.append(dict(kind="raire", contests=pat, nids=2 if tier == "quick" else 3, headers=1 if tier == "quick" else 2))
     return out
@@ -65,7 +68,13 @@ def _merge(cell, stats):
         po = [z3.Bool(f"pool{i}") for i in range(K)]
         has = [[z3.Bool(f"has{i}_{c}") for c in CONS] for i in range(K)]
         vdicts = [{c: {"tag": (i, c), f"only{i}": True} for c in CONS} for i in range(K)]      # every record marks its own candidate
-        recs = [A.CVR(id=f"id{ids[i]}", votes=aud.PresDict({c: has[i][k] for k, c in enumerate(CONS)}, vdicts[i]),
+        share = cell.get("share")
+        if share:      # record share[1] holds the very dict object of record share[0]
+            has[share[1]] = has[share[0]]
+        vobjs = [aud.PresDict({c: has[i][k] for k, c in enumerate(CONS)}, vdicts[i]) for i in range(K)]
+        if share:
+            vobjs[share[1]] = vobjs[share[0]]
+        recs = [A.CVR(id=f"id{ids[i]}", votes=vobjs[i],
                       phantom=SB(ph[i]), pool=SB(po[i]), tally_pool=pools[i]) for i in range(K)]
         inputs = lambda m: dict(ids=ids, pools=pools, phantom=[bool(model_value(m, x)) for x in ph], pool=[bool(model_value(m, x)) for x in po],
                                 lists=[[bool(model_value(m, has[i][k])) for k in range(2)] for i in range(K)])
@@ -111,7 +120,7 @@ def _merge(cell, stats):
                         present = (c in r.votes)
                         present = present if isinstance(present, bool) else bool(present)
                         claims.append((f"id{g}: contest {c} present iff some record lists it", listed if present else z3.Not(listed)))
-                        if present:
+                        if present and not share:
                             src = r.votes[c].get("tag") if isinstance(r.votes[c], dict) else None
                             # the last member listing c supplies the votes
                             want = [z3.And(has[i][k], *[z3.Not(has[j][k]) for j in members if j > i]) for i in members]
@@ -233,7 +242,11 @@ def replay(f):
         return dict(reproduced=not ok, detail=f"rows={rows}: got {got}, expected {[(b, cards[b]) for b in order]}")
     K, ids, pools = cell["K"], cell["ids"], cell["pools"]
     CONS = ["c1", "c2"]
-    recs = [A.CVR(id=f"id{ids[i]}", votes={c: {"tag": (i, c), f"only{i}": True} for k, c in enumerate(CONS) if inp["lists"][i][k]},
+    vobjs = [{c: {"tag": (i, c), f"only{i}": True} for k, c in enumerate(CONS) if inp["lists"][i][k]} for i in range(K)]
+    share = cell.get("share")
+    if share:
+        vobjs[share[1]] = vobjs[share[0]]
+    recs = [A.CVR(id=f"id{ids[i]}", votes=vobjs[i],
                   phantom=bool(inp["phantom"][i]), pool=bool(inp["pool"][i]), tally_pool=pools[i]) for i in range(K)]
     conflict = False
     for g in set(ids):
@@ -267,7 +280,7 @@ def replay(f):
                     listing = [i for i in members if inp["lists"][i][k]]
                     if (c in r.votes) != bool(listing):
                         bad.append(f"id{g}: contest {c} present={c in r.votes}, listed by {listing}")
-                    elif listing and r.votes[c] != {"tag": (listing[-1], c), f"only{listing[-1]}": True}:
+                    elif listing and not share and r.votes[c] != {"tag": (listing[-1], c), f"only{listing[-1]}": True}:
                         bad.append(f"id{g}: contest {c} votes {r.votes[c]}, expected those of record {listing[-1]}")
                 if r.phantom is not all(inp["phantom"][i] for i in members):
                     bad.append(f"id{g}: phantom={r.phantom!r}")
